@@ -10,12 +10,12 @@ pub(crate) struct DuplicateStructFieldId {
     duplicate: LitInt,
     first: Span,
     struct_ident: Option<Ident>,
-    free_id: u32,
+    free_id: Option<u32>,
 }
 
 impl DuplicateStructFieldId {
     pub(crate) fn validate(fields: &[StructField], ident: Option<&Ident>, validate: &mut Validate) {
-        let mut max_id = fields
+        let mut max_id: u32 = fields
             .iter()
             .filter_map(|field| field.id().value().parse().ok())
             .max()
@@ -27,8 +27,8 @@ impl DuplicateStructFieldId {
                 .filter(|field| field.id().value().parse::<u32>().is_ok()),
             |field| field.id().value(),
             |duplicate, first| {
-                max_id += 1;
-                let free_id = max_id;
+                let free_id = max_id.checked_add(1);
+                max_id = free_id.unwrap_or(max_id);
                 validate.add_error(Self {
                     schema_name: validate.schema_name().to_owned(),
                     duplicate: duplicate.id().clone(),
@@ -69,7 +69,10 @@ impl Diagnostic for DuplicateStructFieldId {
                 .context(schema, self.first, "first defined here");
         }
 
-        report = report.help(format!("use a free id, e.g. {}", self.free_id));
+        if let Some(free_id) = self.free_id {
+            report = report.help(format!("use a free id, e.g. {free_id}"));
+        }
+
         report.render()
     }
 }
